@@ -927,6 +927,20 @@ def c08(ctx):
         ("no-cond-assign", "if (a = ", "(b ? c : d)", ") {}"),
         ("no-unreachable", "function f() { return 1; ", "function g() { return 2; }", " h(); }"),
         ("no-empty", "if (a) { ", "", " } else { if (b) {} }"),
+        # the same NAME used by the nested instance behind a function boundary (state keyed by name)
+        ("no-unused-labels", "A: { ", "(function () { A: for (;;) { break A; } })();", " }"),
+        ("no-unused-labels", "A: { ", "x = () => { A: for (;;) { break A; } };", " }"),
+        ("no-unused-labels", "A: for (;;) { ", "class K { m() { A: for (;;) { break A; } } }", " }"),
+        ("no-unused-labels", "A: for (;;) { ", "x = { get g() { A: for (;;) { continue A; } } };", " break A; }"),
+        ("no-redeclare", "var a = 1; ", "function f() { var a = 2; }", " var a = 3;"),
+        ("no-redeclare", "var a = 1; ", "x = (a) => { var b; };", " var a = 3;"),
+        ("no-dupe-keys", "x = { a: ", "function () { return { a: 1, b: 2 }; }", ", b: 2, a: 3 };"),
+        ("no-dupe-class-members", "class A { foo() { ", "return class { foo() {} bar() {} };", " } bar() {} foo() {} }"),
+        ("no-dupe-args", "function f(a, b = ", "(a, b) => 0", ", a) {}"),
+        ("no-func-assign", "function q() {} ", "function r(q) { q = 1; }", " q = 2;"),
+        ("no-class-assign", "class Q {} ", "function r(Q) { Q = 1; }", " Q = 2;"),
+        ("no-const-assign", "const c = 1; ", "function r(c) { c = 1; }", " c = 2;"),
+        ("no-ex-assign", "try {} catch (e) { ", "(function (e) { e = 1; })();", " e = 2; }"),
     ]
     for (rule, pre, hole, suf) in REENTRANT:
         for which, text in (("with", hole), ("without", "")):
